@@ -2572,7 +2572,9 @@ def preprocess_file(
             if match.group(1) == "define":
                 # A redefinition replaces the macro, also its compiled pattern
                 def_regexes.pop(def_name, None)
-                eq_ind = line[match.end(0) :].find(" ")
+                # The body starts at the first blank or tab after the name
+                body_sep = re.search(r"[ \t]", line[match.end(0) :])
+                eq_ind = body_sep.start() if body_sep else -1
                 if eq_ind >= 0:
                     # Handle multiline macros
                     if line.rstrip()[-1] == "\\":
